@@ -156,6 +156,19 @@ static inline size_t *vec_size_back(vec_size *v)
   __CPROVER_assert(v->size > 0, "[C16][C20][safety] back() of an empty vector");
   return &v->data[v->size - 1];
 }
+static inline size_t vec_size_size(const vec_size *v) { return v->size; }
+static inline _Bool vec_size_empty(const vec_size *v) { return v->size == 0; }
+static inline void vec_size_clear(vec_size *v) { v->size = 0; }
+static inline size_t *vec_size_front(vec_size *v)
+{
+  __CPROVER_assert(v->size > 0, "[C16][C20][safety] front() of an empty vector");
+  return &v->data[0];
+}
+static inline size_t *vec_size_at(vec_size *v, size_t i)
+{
+  __CPROVER_assert(i < v->size, "[C16][C20][safety] vector::at index in range");
+  return &v->data[i];
+}
 static inline vec_size_iter vec_size_begin(vec_size *v) { vec_size_iter i; i.vec = v; i.pos = 0; return i; }
 static inline vec_size_iter vec_size_end(vec_size *v) { vec_size_iter i; i.vec = v; i.pos = v->size; return i; }
 static inline void vec_size_sort_desc(vec_size_iter b, vec_size_iter e)
@@ -203,6 +216,27 @@ static inline size_t *vec_size_back(vec_size *v)
 {
   __CPROVER_assert(v->size > 0, "[C16][C20][safety] back() of an empty vector");
   vec_scratch = v->last;
+  return &vec_scratch;
+}
+static inline size_t vec_size_size(const vec_size *v) { return v->size; }
+static inline _Bool vec_size_empty(const vec_size *v) { return v->size == 0; }
+static inline void vec_size_clear(vec_size *v) { v->size = 0; v->has_v = 0; v->has_w = 0; v->sorted = 0; v->uniq = 0; }
+static inline size_t *vec_size_front(vec_size *v)
+{
+  __CPROVER_assert(v->size > 0, "[C16][C20][safety] front() of an empty vector");
+  size_t x = nondet_size();
+  /* ASSUME[library]: the first element lies between minimum and maximum; it is the maximum of a vector sorted descending */
+  __CPROVER_assume(x <= v->maxv && x >= v->minv && (!v->sorted || x == v->maxv));
+  vec_scratch = x;
+  return &vec_scratch;
+}
+static inline size_t *vec_size_at(vec_size *v, size_t i)
+{
+  __CPROVER_assert(i < v->size, "[C16][C20][safety] vector::at index in range");
+  size_t x = nondet_size();
+  /* ASSUME[library]: an element lies between minimum and maximum; first = max and last = min for a sorted vector */
+  __CPROVER_assume(x <= v->maxv && x >= v->minv && (i != 0 || !v->sorted || x == v->maxv) && (i + 1 != v->size || !v->sorted || x == v->minv));
+  vec_scratch = x;
   return &vec_scratch;
 }
 static inline vec_size_iter vec_size_begin(vec_size *v) { vec_size_iter i; i.vec = v; i.pos = 0; return i; }
